@@ -125,6 +125,7 @@ class _Inliner:
         self.repo, self.f, self.depth = repo, f, depth
         self.counter = 0
         self.changed = False
+        self.expansions = {}
 
     # -- eligibility -----------------------------------------------------------------
     def helper_for(self, call, stack):
@@ -204,7 +205,6 @@ class _Inliner:
                 tmp = f"{g.name}__{p_}" if self.expansions.get(g.name, 0) == 0 else f"{g.name}_{self.expansions[g.name] + 1}__{p_}"
                 pre.append(ast.Assign(targets=[ast.Name(id=tmp, ctx=ast.Store())], value=copy.deepcopy(e), type_comment=None))
                 real[p_] = ast.Name(id=tmp, ctx=ast.Load())
-        self.expansions = getattr(self, "expansions", {})
         k_ = self.expansions[g.name] = self.expansions.get(g.name, 0) + 1
         prefix = g.name if k_ == 1 else f"{g.name}_{k_}"  # each expansion has its own locals
 
@@ -341,9 +341,11 @@ class _Inliner:
 
 def inlined(repo, f, depth: int = 2) -> ast.FunctionDef:
     """copy of f.node with eligible helper calls expanded (see module docstring)"""
-    key = (id(repo), f.qname, depth)
-    if key in _CACHE:
-        return _CACHE[key]
+    # the cache lives on the repository object: another Repo (another overlay) must never see these trees
+    cache = repo.__dict__.setdefault("_inline_cache", {})
+    key = (f.qname, depth)
+    if key in cache:
+        return cache[key]
     node = copy.deepcopy(f.node)
     inl = _Inliner(repo, f, depth)
     for _ in range(depth):
@@ -353,7 +355,7 @@ def inlined(repo, f, depth: int = 2) -> ast.FunctionDef:
             break
     ast.fix_missing_locations(node)
     node._inlined = True
-    _CACHE[key] = node
+    cache[key] = node
     return node
 
 
